@@ -491,4 +491,30 @@ theorem gap_slice_inner (K Ka : List Node) (gap : Slice) (G' : List Node) (A0 B0
     rw [hgt']
     exact aligned_after_splice K Ka _ f1 t1 gt hn hna hda hft1 (by rw [ftoks_length]; exact ht1) h' al2
 
+
+/-! ### arithmetic of the shifted positions (kept apart: `omega` is slow in large contexts) -/
+
+theorem arith_shift (t t1 f1 len : Nat) (sz : Int) (h : (len : Int) = sz) (h1 : f1 ≤ t1) (h2 : t1 < t) :
+    ((t : Int) + (sz - ((t1 : Int) - f1))).toNat = f1 + len + (t - t1) := by omega
+
+theorem arith_in (p ins gf f sN g pl : Nat) (hp : p = sN + 1 + g) (hpl : pl = f + ins + (sN - gf))
+    (h1 : gf ≤ sN) (h2 : f ≤ gf) :
+    ((p : Int) + ((ins : Int) - ((gf : Int) - f))).toNat = pl + 1 + g := by omega
+
+
+theorem arith_T2 (f1 t1 t sN g1 h1 k k' len : Nat) (q1 : f1 = sN + 1 + g1) (q2 : t1 = sN + 1 + h1)
+    (hsz : k' = g1 + len + (k - h1)) (r1 : g1 ≤ h1) (r2 : h1 ≤ k) (ht : sN + (2 + k) ≤ t) :
+    f1 + len + (t - t1) = t - k + k' := by omega
+
+theorem arith_e2 (a gt t t1 : Nat) (h1 : t1 < gt) (h2 : gt ≤ t) : a + (t - t1) = a + (gt - t1) + (t - gt) := by
+  omega
+
+theorem arith_G (gf sN k k' gt f1 t1 g1 h1 len G : Nat) (q1 : f1 = sN + 1 + g1) (q2 : t1 = sN + 1 + h1)
+    (hsz : k' = g1 + len + (k - h1)) (r1 : g1 ≤ h1) (r2 : h1 ≤ k) (r4 : gf ≤ sN) (r5 : sN + (2 + k) ≤ gt)
+    (hG : G = (sN - gf) + (2 + k') + (gt - sN - (2 + k))) : gf + G = f1 + len + (gt - t1) := by omega
+
+
+theorem arith_e (f a k k' x : Nat) (h : x + k = a + k') (hk : k ≤ a) : f + a - k + k' = f + x + 0 := by omega
+
+
 end PM
